@@ -382,7 +382,208 @@ def check_two_level(ctx):
               "the handle of the opened block is remembered (the 'same block' test compares against it)", "remembered handle changed")
 
 
+DI = "src/db_iter.c"
+
+
+CHILD_KEY = ("ldb_iter_key(iter->iter)", "(*iter->iter->table->key)(iter->iter->ptr)")
+CHILD_VALUE = ("ldb_iter_value(iter->iter)", "(*iter->iter->table->value)(iter->iter->ptr)")
+USER_KEY_OF_KEY = ("ldb_extract_user_key((&key))", "ldb__slice((&key)->data, ((&key)->size - 8))")
+
+
+def _db_token(e):
+    k = e["e"]
+    if k == "call" and e.get("fp") is not None:
+        n = _callee(e)
+        if n in MOVES and argkey(e, 0) == "iter->iter->ptr" and "iter->iter->table" in key(e["fp"]):
+            return (n,) + tuple(_ak(a) for a in e["a"][1:])
+        return None
+    if k == "call" and e.get("f"):
+        n = e["f"]
+        if n.startswith("ldb_iter_") and n[9:] in MOVES and argkey(e, 0) == "iter->iter":
+            return (n[9:],) + tuple(_ak(a) for a in e["a"][1:])
+        if n == "find_next_user_entry":
+            return ("find_next",) + tuple(_ak(a) for a in e["a"][1:])
+        if n == "find_prev_user_entry":
+            return ("find_prev",)
+        if n == "ldb_buffer_copy" and argkey(e, 0) in ("skip", "&iter->saved_key", "&iter->saved_value"):
+            return ("save", argkey(e, 0), argkey(e, 1))
+        if n == "ldb_buffer_reset" and argkey(e, 0) == "&iter->saved_key":
+            return ("reset-key",)
+        if n == "clear_saved_value":
+            return ("clear-value",)
+        return None
+    if k == "asg":
+        lk = key(e["lhs"])
+        if lk in ("iter->valid", "iter->direction", "skipping") and const_val(e["rhs"]) is not None:
+            return ("%s=%d" % (lk.replace("iter->", ""), const_val(e["rhs"])),)
+        if lk == "value_type":
+            return ("value_type=%s" % key(e["rhs"]),)
+    return None
+
+
+def _db_valuation(f, env):
+    """Like _valuation, plus: 'call:<name>' -> value of a direct call,
+    'valid#k' -> value of the k-th (source order) ldb_iter_valid(iter->iter)."""
+    base = _valuation(env)
+    def is_valid_call(t):
+        return (t.get("f") == "ldb_iter_valid") or (t.get("fp") is not None and _callee(t) == "valid" and
+                                                    t.get("a") and _ak(t["a"][0]) == "iter->iter->ptr")
+    order = sorted({(tuple(int(x) for x in e["l"].split(":")[1:3]), e["id"]) for b, i, e in f.events("call") if is_valid_call(e)})
+    ordinal = {cid: n + 1 for n, (_, cid) in enumerate(order)}
+
+    def val(t):
+        if t.get("k") == "call" and is_valid_call(t):
+            kx = "valid#%d" % ordinal.get(t.get("id"), 0)
+            if kx in env:
+                return env[kx]
+            return env.get("valid")
+        if t.get("k") == "call" and t.get("f"):
+            kx = "call:" + t["f"]
+            if kx in env:
+                return env[kx]
+        return base(t)
+    return val
+
+
+def _db_table(ctx, f, rows, start=None, stop=None, cut=None):
+    for name, env, want in rows:
+        try:
+            got = sequences_under(f, _db_token, _db_valuation(f, env), start=start, stop=stop)
+        except Unsupported as u:
+            raise AnalysisBroken("%s: %s" % (f.name, u))
+        if cut is not None:
+            got = {cut(s) for s in got}
+        ctx.check(got == {tuple(want)}, "T12-dbiter-composition", "%s:%s" % (f.name, name), f.name, f.loc,
+                  "%s: %s -> %s" % (f.name, name, _fmt([want])[0]),
+                  "%s under %s performs %s, a sorted map over (user key, newest visible version) dictates %s" %
+                  (f.name, name, _fmt(got), _fmt([want])[0]), subject="%s:%s" % (f.name, name))
+
+
+def _cmp_args(ctx, f, want, what):
+    calls = [e for b, i, e in f.events("call") if e.get("fp") is not None and _callee(e) == "compare"]
+    got = sorted((argkey(e, 0), argkey(e, 1), argkey(e, 2)) for e in calls)
+    ctx.check(got == sorted(want), "T12-dbiter-composition", f.name + ":comparator", f.name, f.loc,
+              "%s by the user comparator" % what, "%s compares %s (expected %s)" % (f.name, got, sorted(want)))
+
+
+def check_db_iter(ctx):
+    """User-level iterator: per entry of the internal stream, what the forward
+    and the backward scan do with it; and how next / prev / seek / first /
+    last compose the child moves and the two scans, direction switches
+    included."""
+    P = ctx.P
+    FWD_, REV_ = int(P.enums["LDB_FORWARD"]["v"]), int(P.enums["LDB_REVERSE"]["v"])
+    DEL, VAL = int(P.enums["LDB_TYPE_DELETION"]["v"]), int(P.enums["LDB_TYPE_VALUE"]["v"])
+    VIS = {"call:parse_key": 1, "(ikey.sequence <= iter->sequence)": 1}
+    fn = ctx.fn("find_next_user_entry", DI)
+    body = lambda e: e["e"] == "decl" and e["n"] == "ikey"
+    ctx.require(any(body(e) for b, i, e in fn.events("decl")), "find_next_user_entry: per-entry body not found")
+
+    def one_round(s):
+        out = []
+        for x in s:
+            if x == "<loop>":
+                break
+            out.append(x)
+            if isinstance(x, tuple) and x[0] in ("next", "prev"):
+                break
+        return tuple(out)
+    rows = [
+        ("entry not parsable", {"call:parse_key": 0}, [("next",)]),
+        ("entry newer than the iterator", {"call:parse_key": 1, "(ikey.sequence <= iter->sequence)": 0}, [("next",)]),
+        ("visible tombstone", dict(VIS, **{"ikey.type": DEL}), [("save", "skip", "&ikey.user_key"), ("skipping=1",), ("next",)]),
+        ("visible value, nothing to skip", dict(VIS, **{"ikey.type": VAL, "skipping": 0}), [("valid=1",), ("reset-key",)]),
+        ("visible value of a key at or before the skip key", dict(VIS, **{"ikey.type": VAL, "skipping": 1, "cmp": 0}), [("next",)]),
+        ("visible value of a key before the skip key", dict(VIS, **{"ikey.type": VAL, "skipping": 1, "cmp": -1}), [("next",)]),
+        ("visible value of a key after the skip key", dict(VIS, **{"ikey.type": VAL, "skipping": 1, "cmp": 1}), [("valid=1",), ("reset-key",)]),
+    ]
+    _db_table(ctx, fn, rows, start=body, cut=one_round)
+    _cmp_args(ctx, fn, [("iter->ucmp", "&ikey.user_key", "skip")], "an entry is hidden iff its user key is at or before the skip key")
+    end = sequences_under(fn, _db_token, _db_valuation(fn, {"valid": 0}), start=lambda e: is_call(e, "ldb_iter_next"))
+    ctx.check(end == {(("reset-key",), ("valid=0",))}, "T12-dbiter-composition", "find_next_user_entry:exhausted", fn.name, fn.loc,
+              "when the stream is exhausted the iterator becomes invalid", "at the end of the stream find_next_user_entry performs %s" % _fmt(end))
+
+    fp = ctx.fn("find_prev_user_entry", DI)
+    ctx.require(any(body(e) for b, i, e in fp.events("decl")), "find_prev_user_entry: per-entry body not found")
+    HAD, NONE_ = {"(value_type != %d)" % DEL: 1, "(value_type == %d)" % DEL: 0}, {"(value_type != %d)" % DEL: 0}
+    keep_val = [("value_type=ikey.type",), ("save", "&iter->saved_key", "&ukey"), ("save", "&iter->saved_value", "&value"), ("prev",)]
+    keep_del = [("value_type=ikey.type",), ("reset-key",), ("clear-value",), ("prev",)]
+    rows = [
+        ("entry not parsable", {"call:parse_key": 0}, [("prev",)]),
+        ("entry newer than the iterator", {"call:parse_key": 1, "(ikey.sequence <= iter->sequence)": 0}, [("prev",)]),
+        ("have a value, entry of an earlier key", dict(VIS, **dict(HAD, cmp=-1)), [("valid=1",)]),
+        ("have a value, newer value of the same key", dict(VIS, **{"(value_type != %d)" % DEL: 1, "cmp": 0, "(value_type == %d)" % DEL: 0, "ikey.type": VAL}), keep_val),
+        ("have a value, newer tombstone of the same key", dict(VIS, **{"(value_type != %d)" % DEL: 1, "cmp": 0, "(value_type == %d)" % DEL: 1, "ikey.type": DEL}), keep_del),
+        ("nothing yet, value", dict(VIS, **{"(value_type != %d)" % DEL: 0, "(value_type == %d)" % DEL: 0, "ikey.type": VAL}), keep_val),
+        ("nothing yet, tombstone", dict(VIS, **{"(value_type != %d)" % DEL: 0, "(value_type == %d)" % DEL: 1, "ikey.type": DEL}), keep_del),
+    ]
+    _db_table(ctx, fp, rows, start=body, cut=one_round)
+    _cmp_args(ctx, fp, [("iter->ucmp", "&ikey.user_key", "&iter->saved_key")], "the backward scan stops at the first entry of an earlier key")
+    d = {n: _defs(fp, n) for n in ("ukey", "key", "value")}
+    ctx.check(len(d["key"]) == 1 and d["key"][0] in CHILD_KEY and len(d["ukey"]) == 1 and d["ukey"][0] in USER_KEY_OF_KEY and
+              len(d["value"]) == 1 and d["value"][0] in CHILD_VALUE,
+              "T12-dbiter-composition", "find_prev_user_entry:saved-entry", fp.name, fp.loc,
+              "the saved key / value are those of the current child entry", "saved entry comes from %s" % d)
+    for name, env, want in (("stream exhausted, last seen a tombstone / nothing", {"valid": 0, "(value_type == %d)" % DEL: 1},
+                             [("valid=0",), ("reset-key",), ("clear-value",), ("direction=%d" % FWD_,)]),
+                            ("stream exhausted, holding a value", {"valid": 0, "(value_type == %d)" % DEL: 0}, [("valid=1",)])):
+        got = sequences_under(fp, _db_token, _db_valuation(fp, env))
+        ctx.check(got == {tuple(want)}, "T12-dbiter-composition", "find_prev_user_entry:" + name, fp.name, fp.loc,
+                  "find_prev_user_entry: %s -> %s" % (name, _fmt([want])[0]),
+                  "find_prev_user_entry under %s performs %s, expected %s" % (name, _fmt(got), _fmt([want])[0]))
+    ini = [key(e.get("init")) for b, i, e in fp.events("decl") if e["n"] == "value_type"]
+    ctx.check(ini == [str(DEL)], "T12-dbiter-composition", "find_prev_user_entry:initial", fp.name, fp.loc,
+              "the backward scan starts with nothing held", "value_type starts as %s" % ini)
+
+    # positioning and stepping
+    SK = "&iter->saved_key"
+    dn = ctx.fn("ldb_dbiter_next", DI)
+    R = {"(iter->direction == %d)" % REV_: 1, "(iter->direction != %d)" % REV_: 0, "(iter->direction == %d)" % FWD_: 0, "(iter->direction != %d)" % FWD_: 1}
+    F = {"(iter->direction == %d)" % REV_: 0, "(iter->direction != %d)" % REV_: 1, "(iter->direction == %d)" % FWD_: 1, "(iter->direction != %d)" % FWD_: 0}
+    gone = [("valid=0",), ("reset-key",)]
+    rows = [
+        ("after a backward step, child before the first entry, nothing follows", dict(R, **{"valid#1": 0, "valid#2": 0}), [("direction=%d" % FWD_,), ("first",)] + gone),
+        ("after a backward step, child before the first entry", dict(R, **{"valid#1": 0, "valid#2": 1}), [("direction=%d" % FWD_,), ("first",), ("find_next", "1", SK)]),
+        ("after a backward step, nothing follows", dict(R, **{"valid#1": 1, "valid#2": 0}), [("direction=%d" % FWD_,), ("next",)] + gone),
+        ("after a backward step", dict(R, **{"valid#1": 1, "valid#2": 1}), [("direction=%d" % FWD_,), ("next",), ("find_next", "1", SK)]),
+        ("forward, nothing follows", dict(F, **{"valid#3": 0}), [("save", SK, "&ukey"), ("next",)] + gone),
+        ("forward", dict(F, **{"valid#3": 1}), [("save", SK, "&ukey"), ("next",), ("find_next", "1", SK)]),
+    ]
+    _db_table(ctx, dn, rows)
+    dp = ctx.fn("ldb_dbiter_prev", DI)
+    rows = [
+        ("already backward", R, [("find_prev",)]),
+        ("after a forward step, stream exhausted backwards", dict(F, **{"valid": 0}),
+         [("save", SK, "&ukey"), ("prev",), ("valid=0",), ("reset-key",), ("clear-value",)]),
+        ("after a forward step, first earlier key reached", dict(F, **{"valid": 1, "cmp": -1}),
+         [("save", SK, "&ukey"), ("prev",), ("direction=%d" % REV_,), ("find_prev",)]),
+    ]
+    _db_table(ctx, dp, rows)
+    same = sequences_under(dp, _db_token, _db_valuation(dp, dict(F, **{"valid": 1, "cmp": 0})))
+    ctx.check(all(s[-1] == "<loop>" and ("prev",) in s for s in same) and bool(same), "T12-dbiter-composition", "ldb_dbiter_prev:same-key-keeps-scanning",
+              dp.name, dp.loc, "entries of the current key are skipped backwards until an earlier key appears",
+              "ldb_dbiter_prev on an entry of the same key performs %s" % _fmt(same))
+    _cmp_args(ctx, dp, [("iter->ucmp", "&ukey", "&iter->saved_key")], "the switch to backward scans to the first entry of an earlier key")
+    for fname, move, rows in (
+            ("ldb_dbiter_seek", "seek", [("target found", {"valid": 1}, [("direction=%d" % FWD_,), ("clear-value",), ("reset-key",), ("seek", SK), ("find_next", "0", SK)]),
+                                         ("past the end", {"valid": 0}, [("direction=%d" % FWD_,), ("clear-value",), ("reset-key",), ("seek", SK), ("valid=0",)])]),
+            ("ldb_dbiter_first", "first", [("non-empty", {"valid": 1}, [("direction=%d" % FWD_,), ("clear-value",), ("first",), ("find_next", "0", SK)]),
+                                           ("empty", {"valid": 0}, [("direction=%d" % FWD_,), ("clear-value",), ("first",), ("valid=0",)])]),
+            ("ldb_dbiter_last", "last", [("any", {}, [("direction=%d" % REV_,), ("clear-value",), ("last",), ("find_prev",)])])):
+        _db_table(ctx, ctx.fn(fname, DI), rows)
+    # what the iterator reports depends on the direction it was positioned in
+    for fname, fwd, rev in (("ldb_dbiter_key", USER_KEY_OF_KEY, "iter->saved_key"), ("ldb_dbiter_value", CHILD_VALUE, "iter->saved_value")):
+        f = ctx.fn(fname, DI)
+        g = xgraph(P, f)
+        rets = [(key(e.get("x")), g.must_at(b, i)) for b, i, e in f.events("ret") if e.get("x") is not None]
+        ok = len(rets) == 2 and all((k2 in fwd and holds(a, ("==", "iter->direction", FWD_))) or (k2 == rev and holds(a, ("!=", "iter->direction", FWD_)))
+                                    for k2, a in rets) and any(k2 in fwd for k2, a in rets) and any(k2 == rev for k2, a in rets)
+        ctx.check(ok, "T12-dbiter-composition", fname + ":by-direction", f.name, f.loc,
+                  "forward: the child's current entry; backward: the saved entry", "%s returns %s" % (fname, [k2 for k2, a in rets]))
+
+
 def check(ctx):
+    check_db_iter(ctx)
     check_seek_helpers(ctx)
     check_merger(ctx)
     check_two_level(ctx)
